@@ -94,6 +94,7 @@ class Machine:
         self.hist = {}
         self.win = None           # None = sequential; else function key -> Bool term
         self.before = None        # key -> Bool term: executed in an earlier round
+        self.upto = None          # key -> Bool term: position lies before the end of the current window
         self.stats = collections.Counter()
         self.fn_addr = {}; self.addr_fn = {}
         self.glob_addr = {}
@@ -459,6 +460,7 @@ class Machine:
         if ty.k in ('ptr', 'float'): return 0
         if ty.k == 'struct': return tuple(self.zero_of(e) for e in ty.elems)
         if ty.k == 'array': return tuple(self.zero_of(ty.elem) for _ in range(ty.n))
+        if ty.k in ('void', 'metadata', 'label', 'func'): return None
         raise Unsupported('zero of ' + ty.k)
 
     def const(self, v, ty, env=None):
@@ -573,7 +575,7 @@ class Machine:
             return tuple(self.merge(c, x, y, rt.elem) for x, y in zip(a, b))
         rt = self.ty.resolve(ty)
         if rt.k == 'int': return Ite(c, a, b, 0 if rt.bits == 1 else rt.bits)
-        if rt.k == 'void': return None
+        if rt.k in ('void', 'metadata', 'label'): return None
         return Ite(c, a, b, 64)
 
     # ------------------------------------------------------------ typed memory access
@@ -647,7 +649,7 @@ class Machine:
             return self.builtin(name, args, g, None)
         if self.depth > self.max_depth: raise Unsupported('call depth exceeded at ' + name)
         if self.callstack.count(name) >= 4:
-            self.unwound.append((self.vis(g)[0], 'recursion ' + name)); return False, self.zero_of(f.ret) if f.ret.k != 'void' else None, False
+            self.unwound.append((g if self.win is None else And(g, self.upto(tuple(self.keypath))), 'recursion ' + name)); return False, self.zero_of(f.ret) if f.ret.k != 'void' else None, False
         self.funcs_encoded[name] += 1
         self.depth += 1; self.callstack.append(name)
         try:
@@ -696,7 +698,9 @@ class Machine:
             # entered under a new symbolic condition count against the unwinding bound U
             if k > 0 and g is not prev: ksym += 1
             if ksym > U or k >= (self.hard_loop_cap if g is True else self.sym_loop_cap):
-                kp.append(k); eg, _ = self.vis(g); kp.pop()
+                # the cut removes every later iteration from THIS pass: that matters whenever the cut point lies before
+                # the end of the current window (also when it lies before its start: later iterations may be inside)
+                kp.append(k); eg = g if self.win is None else And(g, self.upto(tuple(kp))); kp.pop()
                 self.unwound.append((eg, '%s:%s (U=%d, tid %d)' % (fr.f.name[:80], L.header, U, self.cur.tid)))
                 fr.inc.pop(L.header)
                 self.stats['unwound'] += 1
